@@ -27,12 +27,21 @@ JudgeCmp(C) ==
       ELSE IF C.out = 2 THEN "unexpected-error"
       ELSE IF (C.out = 1) # Compare(C.op, x, y) THEN "comparison" ELSE ""
 
+\* N is Expr with N a number: succeeds iff Expr evaluates to that value AND that type (1 is 1.0 fails: is/2 unifies)
+JudgeIsBound(C) ==
+  LET e == Eval(C.expr)
+      n == Eval(C.n)
+  IN  IF ~e.ok THEN (IF e.err = "unrep" \/ e.err = "type" THEN "skip" ELSE IF C.out = 2 THEN "" ELSE "no-error-for-" \o e.err)
+      ELSE IF C.out = 2 THEN "unexpected-error"
+      ELSE IF e.k = "v" THEN "skip"                        \* result type differs between the reference systems
+      ELSE IF (C.out = 1) # (e.q = n.q /\ e.k = n.k) THEN "is-with-bound-left-hand-side" ELSE ""
+
 JudgeBetween(C) ==
   IF C.ok = 2 THEN "unexpected-error"
   ELSE IF C.sols # Between(C.l, C.h, C.x, C.xbound = 1) THEN "between-solutions" ELSE ""
 
 JudgeCase(C) ==
-  LET why == CASE C.kind = "is" -> JudgeIs(C) [] C.kind = "cmp" -> JudgeCmp(C) [] C.kind = "between" -> JudgeBetween(C)
+  LET why == CASE C.kind = "is" -> JudgeIs(C) [] C.kind = "cmp" -> JudgeCmp(C) [] C.kind = "between" -> JudgeBetween(C) [] C.kind = "isb" -> JudgeIsBound(C)
   IN  [ id |-> C.id, ok |-> (why = "" \/ why = "skip"), skipped |-> why = "skip", why |-> why ]
 Results == [ c \in DOMAIN Cases |-> JudgeCase(Cases[c]) ]
 ASSUME ndJsonSerialize(IOEnv.OUT_FILE, Results)
